@@ -112,8 +112,15 @@ def get_jumps(tr, residence, ctx, what):
     return rows
 
 
-def check_jumps(tr, ctx, what, default_settings, residences=RESIDENCES):
+def check_jumps(tr, ctx, what, default_settings, residences=RESIDENCES, query_order=None):
     states = np.asarray(tr.states)
+    # the settings are queried on the same Transitions object in the given order (default: ascending; callers
+    # pass a shuffled or descending order for half of the cases), and judged in ascending order afterwards
+    rows_by_r = {}
+    for r in (query_order if query_order is not None else residences):
+        rows_by_r[r] = get_jumps(tr, r, ctx, what)
+    if query_order is not None and list(query_order) != list(residences):
+        ctx.count('residence_settings_queried_out_of_order')
     dflt = models.default_jumps(states)
     cd = Counter(dflt)
     dkeys = Counter((a, o, d, s) for a, o, d, s, e in dflt)
@@ -121,7 +128,7 @@ def check_jumps(tr, ctx, what, default_settings, residences=RESIDENCES):
     prev_r = None
     n_reported = 0
     for r in residences:
-        rows = get_jumps(tr, r, ctx, what)
+        rows = rows_by_r[r]
         if rows is None:
             return
         n_reported += len(rows)
@@ -195,7 +202,7 @@ def run_unit(unit, rng, ctx):
         if not (np.array_equal(tr.states, st_true) and np.array_equal(tr.inner_states, in_true)):
             ctx.count('realised_states_differ_from_intended')
         default_settings = f == 1.0 and np.array_equal(tr.states, tr.inner_states)
-        check_jumps(tr, ctx, f'{k} L={L} {kind}', default_settings)
+        check_jumps(tr, ctx, f'{k} L={L} {kind}', default_settings, query_order=(list(rng.permutation(RESIDENCES)) if (unit['lo'] // 60) % 2 else None))
         states = np.asarray(tr.states)
         for j in range(states.shape[1]):
             dj = models.default_jumps(states[:, j : j + 1])
@@ -220,7 +227,7 @@ def run_unit(unit, rng, ctx):
         return
     default_settings = f == 1.0 and np.array_equal(tr.states, tr.inner_states)
     res = [0, int(rng.integers(1, 4)), int(rng.integers(4, 12))]
-    check_jumps(tr, ctx, f'rand {sys_.kind} T={T} f={f}', default_settings, residences=res)
+    check_jumps(tr, ctx, f'rand {sys_.kind} T={T} f={f}', default_settings, residences=res, query_order=([res[i] for i in rng.permutation(3)] if rng.integers(2) else None))
     states = np.asarray(tr.states)
     dj = models.default_jumps(states)
     ctx.count('long_transit_default_jumps', sum(1 for j in dj if j[4] - j[3] > 3))
